@@ -191,6 +191,33 @@ def run_builtin(job, res):
         sc = np.sqrt(np.outer(np.diag(want), np.diag(want)))
         clause("a covariance in its state's frame follows the state's frame change", okf and float((np.abs(got - want) / sc).max()) <= 1e-7,
                "cov/state-follow", f"{start}: state.frame = {tgt}; cov frame {sv.cov.frame}", {"start": start, "target": tgt})
+    # a covariance object built with one state and attached (state.cov = cov) to ANOTHER state of the same date and frame - the
+    # state after an impulsive burn, a second object at the same epoch: local orbital axes are those of the state it is attached to
+    if job.get("follow"):
+        for ki, kep_ in enumerate(keps):
+            for start in ("EME2000", "GCRF", "TOD"):
+                a_ = StateVector(kep_, DATE, "keplerian", "EME2000").copy(frame=start, form="cartesian")
+                a_.cov = Cov(a_, c0, fr.get_frame(start))
+                b_ = a_.copy()
+                del b_.cov
+                b_[3:] = np.asarray(b_[3:], float) + np.array([120.0, -340.0, 75.0])          # after a burn
+                b_[:3] = np.asarray(b_[:3], float) + np.array([2.0e4, 1.0e4, -3.0e4])
+                b_.cov = a_.cov.copy()
+                for tgt in ("QSW", "TNW"):
+                    fresh = b_.copy()
+                    del fresh.cov
+                    fresh.cov = Cov(fresh, c0, fr.get_frame(start))
+                    fresh.cov.frame = tgt
+                    mine = b_.copy()
+                    mine.cov.frame = tgt
+                    want = np.asarray(fresh.cov, float)
+                    got = np.asarray(mine.cov, float)
+                    sc = np.sqrt(np.outer(np.diag(want), np.diag(want)))
+                    res["evaluations"] += 1
+                    clause("a covariance attached to another state of the same date and frame uses THAT state's local orbital axes",
+                           float((np.abs(got - want) / sc).max()) <= 1e-9, "cov/attached-to-other-state",
+                           f"{start}->{tgt}: relative deviation {float((np.abs(got - want) / sc).max()):.3g} from a covariance built on the state itself",
+                           {"start": start, "target": tgt, "kep": kep_})
     res["nontrivial"] += [json.dumps(["builtin"] + [str(x) for x in k]) for k in sorted(kinds, key=str)]
 
 
